@@ -87,6 +87,41 @@ pub fn c07_probes() -> Vec<P> {
         P::Concat(allchar.clone(), all.clone()),
         P::Comp(a2(P::Plus(sig.clone()))),
         P::Loop(sig.clone(), 1, 1),
+        // complements whose body's derivative is again a complement (odd-id terms reached through derivatives)
+        P::Comp(a2(P::Concat(a.clone(), cb.clone()))),
+        P::Comp(a2(P::Concat(ca.clone(), b.clone()))),
+        P::Comp(a2(P::Union(ca.clone(), cat.clone()))),
+        P::Inter(a2(P::Comp(a2(P::Concat(a.clone(), cb.clone())))), sa.clone()),
+    ]
+}
+
+/// second probe set, over universe 4: the characters 0x42 and 0x142 differ by 256 (tables indexed by a truncated code);
+/// built through char, char_set, str and range so that the entry points meet in one manager
+pub fn c07_probes_u4() -> Vec<P> {
+    let (b, l) = (0x42u32, 0x142u32);
+    let cb = a2(P::Ch(b));
+    let cl = a2(P::Ch(l));
+    let rb = r(1, 1);
+    let rl = r(3, 3);
+    vec![
+        (*cb).clone(),
+        (*cl).clone(),
+        (*rb).clone(),
+        (*rl).clone(),
+        P::Cs(b, b),
+        P::Cs(l, l),
+        P::Str(vec![b, l]),
+        P::Str(vec![l, b]),
+        P::Str(vec![l]),
+        P::Concat(cb.clone(), cl.clone()),
+        P::Concat(cl.clone(), cb.clone()),
+        P::Union(cb.clone(), cl.clone()),
+        P::Union(rl.clone(), cb.clone()),
+        P::Inter(r(1, 3), a2(P::Comp(cb.clone()))),
+        P::Inter(r(1, 3), a2(P::Comp(cl.clone()))),
+        P::Star(cl.clone()),
+        P::Comp(cl.clone()),
+        P::Diff(a2(P::Star(r(0, 4))), a2(P::Concat(a2(P::All), a2(P::Concat(cl.clone(), a2(P::All)))))),
     ]
 }
 
@@ -384,7 +419,7 @@ impl Engine for C07Engine {
         c07_histories(ctx.tier, np, &mut |_, _| n += 1);
         Meta {
             level: "model_checking",
-            rule: format!("states = histories of a manager: every sequence of build / explore (build, compile, is_empty_re) / derive events over {} probe programs up to the stated depth ({} histories), each replayed on a FRESH manager and followed by each of the {} probes; invariant evaluated after every history: re-issuing a construction (the probe and each of its operand programs) returns the identical term (== and pointer), == holds only for identical objects among the roots, the probe, its derivatives and their complements, complement is an involution without fixed point on all of them, and the language of the result (product BFS of its derivative graph and of its compiled automaton with the history-free reference DFA) is the construction's; the thread-local manager of the wrappers is driven through histories in fresh OS threads; non-trivial = (history, probe) runs with a non-empty history", np, n, np),
+            rule: format!("states = histories of a manager: every sequence of build / explore (build, compile, is_empty_re) / derive events over {} probe programs up to the stated depth ({} histories), each replayed on a FRESH manager and followed by each of the {} probes; invariant evaluated after every history: re-issuing a construction (the probe and each of its operand programs) returns the identical term (== and pointer), == holds only for identical objects among the roots, the probe, its derivatives and their complements, complement is an involution without fixed point on all of them, and the language of the result (product BFS of its derivative graph and of its compiled automaton with the history-free reference DFA) is the construction's; a second probe set over two characters that differ by 256 (built through char, char_set, str and range) under all histories of length <= 2; the thread-local manager of the wrappers is driven through histories in fresh OS threads; non-trivial = (history, probe) runs with a non-empty history", np, n, np),
             assumptions: vec!["reference DFA of each probe is computed without any manager".into(), "probes share sub-terms, complements and the manager's predefined terms so that operand ids collide".into()],
             exhaustive: true,
             space: format!("{}: all event sequences of length <= {} over {} events, plus all sequences of {} build events, plus 2 x {} long histories (every probe explored, half of them differentiated, in every rotation of the probe order and its reverse)", ctx.tier.name(), if ctx.tier == Tier::Thorough { 3 } else { 2 }, 3 * np, if ctx.tier == Tier::Thorough { 4 } else { 3 }, np),
@@ -422,6 +457,38 @@ impl Engine for C07Engine {
                 rep.sample(|| sj);
             }
         });
+        // second probe set (universe 4): all histories of length <= 2 over all events, each followed by each probe
+        {
+            let u4 = Universe::new(4);
+            let probes4 = c07_probes_u4();
+            let mut cache4 = RefCache::new(u4.clone());
+            let refs4: Vec<Arc<Dfa>> = probes4.iter().map(|p| cache4.dfa(p)).collect();
+            let np4 = probes4.len();
+            let evs: Vec<Ev> = (0..np4).map(Ev::Build).chain((0..np4).map(Ev::Explore)).chain((0..np4).map(|p| Ev::Derive(p, 0x142))).collect();
+            let mut hs: Vec<Vec<Ev>> = vec![vec![]];
+            for e in &evs {
+                hs.push(vec![*e]);
+            }
+            for e in &evs {
+                for f in &evs {
+                    hs.push(vec![*e, *f]);
+                }
+            }
+            for (i, h) in hs.iter().enumerate() {
+                if i % C07_NB != batch {
+                    continue;
+                }
+                beat();
+                for probe in 0..np4 {
+                    rep.inc("evaluations");
+                    rep.inc("u4_histories_x_probes");
+                    if let Some(m) = c07_case(&u4, &probes4, &refs4, h, probe, rep) {
+                        let hj: Vec<Value> = h.iter().map(ev_json).collect();
+                        rep.violation("C07", "c07", json!({"set": "u4", "history": hj, "probe": probe}), format!("(probe set over 0x42/0x142) history {:?} then {}: {}", h, probes4[probe].show(), m));
+                    }
+                }
+            }
+        }
         // wrappers: histories of build events (length <= 2) on the thread-local manager of a fresh thread
         let mut words: Vec<Vec<u32>> = vec![vec![]];
         for &c in &u.reps {
@@ -460,6 +527,21 @@ impl Engine for C07Engine {
         true
     }
     fn replay(&self, _ctx: &Ctx, c: &Value, rep: &mut Report) {
+        if c["set"] == "u4" {
+            let u = Universe::new(4);
+            let probes = c07_probes_u4();
+            let mut cache = RefCache::new(u.clone());
+            let refs: Vec<Arc<Dfa>> = probes.iter().map(|p| cache.dfa(p)).collect();
+            let probe = c["probe"].as_u64().unwrap_or(0) as usize;
+            let h: Vec<Ev> = c["history"].as_array().map(|a| a.iter().map(ev_from).collect()).unwrap_or_default();
+            rep.inc("evaluations");
+            if probe < probes.len() && h.iter().all(|e| match e { Ev::Build(p) | Ev::Explore(p) | Ev::Derive(p, _) => *p < probes.len() }) {
+                if let Some(m) = c07_case(&u, &probes, &refs, &h, probe, rep) {
+                    rep.violation("C07", "c07", c.clone(), m);
+                }
+            }
+            return;
+        }
         let u = Universe::new(0);
         let probes = c07_probes();
         let mut cache = RefCache::new(u.clone());
